@@ -675,6 +675,7 @@ func runC01(cases string, res *Result) {
 	c01HeldResults(res)
 	c01PoliciesOfTheirOwn(res)
 	c01BodiesThatFailHalfway(res)
+	c01SettingsSwitchedBackAndForth(res)
 	readCases(cases, func(c Case) {
 		if c.str("k") == "probes" {
 			runC01Probes(c, res, dir)
